@@ -1459,11 +1459,13 @@ class MPO(MPSGeometry):
                 j = i + k
                 IdL = self.get_IdL(j)
                 IdR = self.get_IdR(j)
-                if IdR is None:
-                    IdR = -1  # not equal to positive index
                 site_j = self.sites[j % L]
                 W = self.get_W(j)
                 W = W.transpose(['wL', 'wR', 'p', 'p*'])
+                if IdR is None:
+                    IdR = -1  # not equal to positive index
+                else:
+                    IdR = IdR % W.get_leg('wR').ind_len  # `IdR` may be stored as a negative index, e.g. -1
                 op_basis_j = op_basis[j % len(op_basis)]
                 partial_R = [None] * W.get_leg('wR').ind_len
                 if k > 0 and IdL is not None:
